@@ -294,7 +294,8 @@ Justified(k, i, F, R, t) ==
              \/ brk[k]
 
 \* start = instant at which the delivery attempt began (it ends, and is recorded, at `now`)
-Attempt(ag, gk, name, as, outcome, deadline, start) ==
+\* recv: the receiver the notified integration belongs to
+Attempt(ag, gk, recv, name, as, outcome, deadline, start) ==
   LET i == name
       k == <<gk, i>>
       inFlush == ag \in DOMAIN fl
@@ -309,6 +310,7 @@ Attempt(ag, gk, name, as, outcome, deadline, start) ==
         (IF NamesOf(as) \cap f.muted # {} THEN {"C02_silenced_alert_notified"} ELSE {})
         \cup (IF NamesOf(as) \cap f.inhibited # {} THEN {"C03_inhibited_alert_notified"} ELSE {})
         \cup (IF ~SrOf(gk, i) /\ R # {} THEN {"C05_resolved_sent_without_send_resolved"} ELSE {})
+        \cup (IF recv # Opt(gk).recv THEN {"C07_notification_to_wrong_receiver"} ELSE {})
         \cup (IF f.tmust THEN {"C15_notification_during_mute_or_outside_active_interval"} ELSE {})
         \cup (IF gk # f.gk \/ \E a \in NamesOf(as) : a \notin NamesOf(f.alerts) \/ Entry(as, a).status # Entry(f.alerts, a).status
                 THEN {"C06_payload_not_from_flush"} ELSE {})
